@@ -854,6 +854,10 @@ class VSocket:
     def sendall(self, data, flags=0):
         self.send(data)
 
+    def sctp_send(self, msg, to=("", 0), ppid=0, flags=0, stream=0, timetolive=0, context=0, record_file_prefix="RECORD_sctp_traffic", datalogging=False):
+        # pysctp's sctpsocket.sctp_send(): same contract as send() for the node (bytes accepted, or OSError)
+        return self.send(msg)
+
     def shutdown(self, how):
         self._check_open()
         # as the kernel does: a socket that is not (or no longer) connected cannot be shut down
